@@ -298,6 +298,24 @@ Proof.
   now rewrite H.
 Qed.
 
+Lemma pure_load_ext En En' : (forall x, En x = En' x) ->
+  forall doc e d, pure_load En e d doc = pure_load En' e d doc.
+Proof.
+  intro H. induction doc as [| | |kv IHv] using jv_ind'; intros; cbn [pure_load]; auto.
+  change (pure_load En e d (JDict kv) = pure_load En' e d (JDict kv)).
+  rewrite !pure_load_dict.
+  assert (L : forall kw, pure_loop En e d kv kw = pure_loop En' e d kv kw).
+  { induction kv as [|[k0 v0] r0 IH0]; intro kw0; cbn; auto.
+    inversion IHv as [|? ? H1 H2]; subst. cbn [snd] in H1.
+    destruct (resolve_pure (d_names d) (m_ltr e) k0); auto.
+    - destruct (field_type d f) as [[| |dk]|]; auto.
+      + destruct (conv_int v0); auto.
+      + destruct (conv_str v0); auto.
+      + rewrite H, H1. destruct (attribute _ _ _); auto.
+    - destruct (raise_of e); auto. }
+  now rewrite L.
+Qed.
+
 Lemma exec_load_spec : forall doc G s d e s' r,
   InvG G s -> trees_ok s -> decl_of s (d_id d) = Some d -> G (d_id d) = Some e ->
   cs_parsers (st_cls s (d_id d)) <> None ->
@@ -350,25 +368,12 @@ Proof.
           assert (Pdm' : cs_parsers (st_cls s1' (d_id dm)) <> None).
           { rewrite (j2f_only_parsers _ _ _ J01'). exact Pdm. }
           destruct (Hv G s1' dm em s1'' rv I1' T1 Hdm Egm Pdm' Ex) as (-> & I2 & J2).
-          assert (Egms : pure_load (gm G s1') em dm v = pure_load (gm G s) em dm v).
-          { f_equal. }
-          cbn [snd].
-          assert (Hgmeq : forall x0, gm G s1' x0 = gm G s x0).
-          { intro x0. apply gm_pres. apply j2f_only_pres. exact J01'. }
-          replace (pure_load (gm G s1') em dm v) with (pure_load (gm G s) em dm v).
-          2:{ clear -Hgmeq. revert em dm. induction v as [| | |kv0 IHv] using jv_ind'; intros; cbn; auto.
-              rewrite !pure_load_dict. f_equal.
-              generalize (@nil (pstr * iv)). induction kv0 as [|[k0 v0] r0 IH0]; intro kw0; cbn; auto.
-              inversion IHv; subst.
-              destruct (resolve_pure (d_names dm) (m_ltr em) k0); auto.
-              - destruct (field_type dm f) as [[| |dk]|]; auto.
-                + destruct (conv_int v0); auto.
-                + destruct (conv_str v0); auto.
-                + rewrite Hgmeq. cbn in H1. rewrite H1. destruct (attribute _ _ _); auto.
-              - destruct (raise_of em); auto. }
+          cbn [snd l_cls mk_lfn].
+          rewrite (pure_load_ext (gm G s1') (gm G s))
+            by (intro x0; apply gm_pres; apply j2f_only_pres; exact J01').
           destruct (attribute (d_id d) x (pure_load (gm G s) em dm v)) as [w|err].
           -- apply IHr; auto. eapply j2f_only_trans; eauto.
-          -- intro H; inversion H; subst. repeat split; auto. eapply j2f_only_trans; eauto.
+          -- intro H; inversion H; subst. split; [reflexivity|]. split; [assumption|]. eapply j2f_only_trans; eauto.
       + destruct (raise_of e).
         * intro H; inversion H; subst. auto.
         * apply IHr; auto.
